@@ -7,14 +7,25 @@ set -uo pipefail
 cd "$(dirname "$0")/.."
 . scripts/env.sh
 id="$1"; tier="${2:-${VERIF_TIER:-quick}}"
-bin=$(scripts/build.sh 2>build.$$.log | tail -1)
+log="build.$$.log"
+bin=$(scripts/build.sh 2>"$log" | tail -1)
 if [ -z "$bin" ] || [ ! -x "$bin" ]; then
-  cat build.$$.log >&2; rm -f build.$$.log
+  cat "$log" >&2; rm -f "$log"
   echo "build failed: /repo working tree does not compile with the harness" >&2
   exit 2
 fi
-rm -f build.$$.log
+rm -f "$log"
+scratch=""
+cleanup() { rm -f "$bin"; [ -n "$scratch" ] && rm -rf "$scratch"; }
+trap cleanup EXIT
+if [ "$id" = "C10" ]; then
+  # map-order / wall-clock dimension: regenerate the overlay from the CURRENT
+  # working tree and build the shim binary with it
+  scratch=$(mktemp -d "${TMPDIR:-/var/tmp}/verif-c10.XXXXXX")
+  if [ ! -x bin/rewriter ]; then ( cd tools/rewriter && go build -o ../../bin/rewriter . ) || { echo "rewriter build failed" >&2; exit 2; }; fi
+  bin/rewriter -repo /repo -out "$scratch/ov" >&2 || { echo "rewriter failed (does the working tree type-check?)" >&2; exit 2; }
+  ( cd harness && go build -tags "verif shim" -overlay "$scratch/ov/overlay.json" -o "$scratch/mcshim" ./cmd/mc ) >&2 || { echo "shim build failed" >&2; exit 2; }
+  export VERIF_SHIM_BIN="$scratch/mcshim" VERIF_SHIM_REPORT="$scratch/ov/report.json"
+fi
 "$bin" check -p "$id" -tier "$tier"
-rc=$?
-rm -f "$bin"
-exit $rc
+exit $?
